@@ -81,7 +81,7 @@ def _queries(rng: Rng, g, lo=Fraction(0), hi=Fraction(1), k=None):
     return sorted(pool)
 
 
-def _variants(rng: Rng, Q, g):
+def _variants(rng: Rng, Q, g, samecount=False):
     """Further query sets, as lists of points (all inside the sampling range)."""
     k = len(Q)
     i = rng.randint(1, max(1, k // 2 - 1))
@@ -94,6 +94,14 @@ def _variants(rng: Rng, Q, g):
     vs.append(("perm", p))
     extra = [g[0], g[-1], g[0] + (g[-1] - g[0]) * Fraction(rng.randint(1, 127), 128)]
     vs.append(("super", sorted(set(Q) | set(extra))))
+    if samecount and len(g) <= 25:
+        # as many query points as sampling points, but located elsewhere (contains two points of Q)
+        m = len(g)
+        pts = set(Q[:2])
+        for i in rng.sample(range(256), m):
+            if len(pts) < m:
+                pts.add(g[0] + (g[-1] - g[0]) * Fraction(2 * i + 1, 512))
+        vs.append(("samecount", sorted(pts)))
     return vs
 
 
@@ -143,7 +151,7 @@ def _case(rng: Rng, tier, entry=None, force=None):
             a, b = rng.choice([(Fraction(1, 4), Fraction(1, 2)), (Fraction(0), Fraction(1, 2)), (Fraction(1, 4), Fraction(0)), (Fraction(0), Fraction(0)), (Fraction(0), Fraction(0))])
             case["fit_domain"] = [rs(lo - sc * a), rs(lo + sc + sc * b)]
         case["Q"] = [rs(t) for t in _scale_pts(dom, Q)]
-        case["variants"] = [[nm, [rs(t) for t in _scale_pts(dom, v)]] for nm, v in _variants(rng, Q, gs)]
+        case["variants"] = [[nm, [rs(t) for t in _scale_pts(dom, v)]] for nm, v in _variants(rng, Q, gs, samecount=True)]
     elif two_d:
         m1, m2 = rng.randint(5, 8), rng.randint(5, 9)
         g1, g2 = _grid01(rng, m1), _grid01(rng, m2)
@@ -184,7 +192,7 @@ def _case(rng: Rng, tier, entry=None, force=None):
         case["X"] = [[rs(t) for t in _curve(rng, g, ykind if k == 0 else rng.choice(["smooth", "rand"]))] for k in range(nobs)]
         Q = _queries(rng, g, k=rng.randint(4, 5) if cov else None)
         case["Q"] = [rs(t) for t in _scale_pts(dom, Q)]
-        case["variants"] = [[nm, [rs(t) for t in _scale_pts(dom, v)]] for nm, v in _variants(rng, Q, g)]
+        case["variants"] = [[nm, [rs(t) for t in _scale_pts(dom, v)]] for nm, v in _variants(rng, Q, g, samecount=not cov)]
         if cov:
             case["variants"] = case["variants"][:5]
         if cov and method == "LP":
@@ -195,21 +203,26 @@ def _case(rng: Rng, tier, entry=None, force=None):
             case["hu"] = rs(rng.choice([Fraction(1, 2), Fraction(3, 4), Fraction(1)]))
     else:  # irregular
         cov = entry.endswith("covariance")
+        pooled = entry.endswith("mean") and (force.get("pooled") or rng.random() < 0.35)
         m = rng.choice([8, 9, 10] if cov else [11, 15, 21])
-        g = _grid01(rng, m)
         nobs = rng.randint(3, 5) if cov else rng.randint(2, 4)
+        if pooled:
+            # more than 2000 pooled observations (size threshold of the approximate mean), many curves sharing few locations
+            m, nobs = rng.choice([44, 48]), rng.choice([52, 60])
+            case["pooled"] = True
+        g = _grid01(rng, m)
         obs = []
         for k in range(nobs):
             need = 7 if cov else 6
-            idx = sorted(rng.sample(range(m), rng.randint(min(need, m), m)))
+            idx = sorted(rng.sample(range(m), rng.randint(min(need, m), m) if not pooled else 40))
             if k == 0:
                 idx = sorted(set(idx) | {0, m - 1})
             gi = [g[i] for i in idx]
-            obs.append(dict(t=[rs(t) for t in _scale_pts(dom, gi)], y=[rs(t) for t in _curve(rng, gi, ykind if k == 0 else "smooth")]))
+            obs.append(dict(t=[rs(t) for t in _scale_pts(dom, gi)], y=[rs(t) for t in _curve(rng, gi, (ykind if k == 0 else "smooth") if not pooled else "rand")]))
         case["obs"] = obs
         Q = _queries(rng, g, k=rng.randint(4, 5) if cov else None)
         case["Q"] = [rs(t) for t in _scale_pts(dom, Q)]
-        case["variants"] = [[nm, [rs(t) for t in _scale_pts(dom, v)]] for nm, v in _variants(rng, Q, g)]
+        case["variants"] = [[nm, [rs(t) for t in _scale_pts(dom, v)]] for nm, v in _variants(rng, Q, g, samecount=not cov)]
         if cov:
             case["variants"] = case["variants"][:5]
         if cov and method == "LP":
@@ -232,6 +245,9 @@ def gen_cases(rng: Rng, tier):
             for dom in ("unit", "doy", "end0"):
                 yield _case(rng, tier, entry, dict(method=method, dom=dom, nonconst=True))
                 k += 1
+    for method in ("PS", "LP"):
+        yield _case(rng, tier, "IrregularFunctionalData.mean", dict(method=method, dom=rng.choice(["unit", "end0", "doy"]), nonconst=True, pooled=True))
+        k += 1
     while k < n:
         yield _case(rng, tier)
         k += 1
@@ -364,6 +380,12 @@ def run_impl(case):
             out["y_hat"] = np.asarray(ps.y_hat).tolist()
             out["at_x"] = np.asarray(ps.predict(x)).tolist()
             out["none"] = np.asarray(ps.predict()).tolist()
+            # one query buffer reused IN PLACE for successive query sets of the same length (strided view, too)
+            buf = np.repeat(_np(case["Q"]), 2)[::2]
+            first = np.asarray(ps.predict(buf)).tolist()
+            pv = [v for v in case["variants"] if v[0] == "perm"][0][1]
+            buf[:] = _np(pv)
+            out["inplace"] = dict(first=first, pts=pv, second=np.asarray(ps.predict(buf)).tolist())
             # history on one object: refit on other data (other domain, no explicit fit domain), compare with a fresh object
             x2, y2, q2 = 2.0 * x + 3.0, y[::-1].copy(), 2.0 * _np(case["Q"]) + 3.0
             ps.fit(y2, x2, penalty=(float(F(case["pen"][0])),))
@@ -392,6 +414,12 @@ def run_impl(case):
             ux = np.unique(x)
             out["at_x"] = lp.predict(y=y, x=x, x_new=ux).tolist()
             out["none"] = lp.predict(y=y, x=x).tolist()
+            # one query buffer reused IN PLACE for successive query sets of the same length
+            buf = _np(case["Q"]).copy()
+            first = lp.predict(y=y, x=x, x_new=buf).tolist()
+            pv = [v for v in case["variants"] if v[0] == "perm"][0][1]
+            buf[:] = _np(pv)
+            out["inplace"] = dict(first=first, pts=pv, second=lp.predict(y=y, x=x, x_new=buf).tolist())
         else:
             from FDApy.misc.utils import _cartesian_product
 
@@ -734,6 +762,14 @@ def oracle(case, impl):
         a, b = np.asarray(impl["repeat"], dtype=float).ravel(), np.asarray(impl["calls"][0]["vals"], dtype=float).ravel()
         if a.shape != b.shape or not np.allclose(a, b, rtol=0, atol=tol):
             bad("history_independent", "the same query set gives another result after other query sets were requested on the same object")
+    if "inplace" in impl:
+        ip = impl["inplace"]
+        for q, v in zip(calls[0][1], ip["first"]):
+            if (0, q) in base and abs(v - base[(0, q)]) > tol:
+                bad("history_independent", f"value at {q} differs between two calls with equal query sets ({v!r} vs {base[(0, q)]!r})", ["inplace"])
+        for q, v in zip(ip["pts"], ip["second"]):
+            if (0, q) in base and abs(v - base[(0, q)]) > tol:
+                bad("history_independent", f"query buffer overwritten in place with a permutation: value at {q} is {v!r}, but {base[(0, q)]!r} when requested through a new array", ["inplace"])
     if "hist_same" in impl:
         a, b = np.asarray(impl["hist_same"], dtype=float), np.asarray(impl["hist_fresh"], dtype=float)
         if a.shape != b.shape or not np.allclose(a, b, rtol=0, atol=1e-9 * max(1.0, float(np.max(np.abs(b))))):
@@ -769,4 +805,6 @@ def classify(case, impl):
         tags.append("explicit-fit-domain")
     if case.get("default_bw"):
         tags.append("default-bandwidth")
+    if case.get("pooled"):
+        tags.append("pooled>2000")
     return tags
